@@ -36,6 +36,7 @@ PF = gen.Profile(
     subslot=False,
     deps=0.75,
     gaps=True,
+    dup_edges=True,
     onstart=True,
     precedes=True,
     relrefs=True,
